@@ -331,6 +331,20 @@ def is_tdvp(method):
     return method.startswith("tdvp")
 
 
+def regauge(st, r, strength=0.5):
+    """same dense vector, same bookkeeping flags, tensors no longer orthonormal: A_i -> A_i X, A_{i+1} -> X^-1 A_{i+1} with a random
+    invertible X on every bond (block diagonal in the bond's quantum-number labels)"""
+    g = st.copy()
+    for i in range(len(g) - 1):
+        d = g[i].shape[-1]
+        lab = np.asarray(g.qn[i + 1]).reshape(d, -1)
+        mask = (lab[:, None, :] == lab[None, :, :]).all(axis=2)
+        x = np.eye(d) + strength * r.standard_normal((d, d)) * mask
+        g[i] = np.tensordot(np.asarray(g[i].array), x, axes=(-1, 0))
+        g[i + 1] = np.tensordot(np.linalg.inv(x), np.asarray(g[i + 1].array), axes=(-1, 0))
+    return g
+
+
 def gauges(model, qn, r):
     """(name, state) -- all representable exactly with the default limit"""
     np.random.seed(int(r.randint(0, 2 ** 31 - 1)))
@@ -347,6 +361,13 @@ def gauges(model, qn, r):
     ap.normalize("mps_and_coeff")
     out.append(("operator-applied", ap))
     out.append(("complex", rand_state(model, r, qn, 16, complex_=True)))
+    # non-canonical representations whose flags are legal: (to_right=False, centre last) and (to_right=True, centre 0)
+    out.append(("regauged-left-flags", regauge(base, r)))
+    out.append(("regauged-right-flags", regauge(b, r)))
+    other = rand_state(model, r, qn, 16)
+    sm = base.add(other.scale(0.7))                    # raw output of add: block-diagonal tensors, not canonical
+    sm = sm.scale(1.0 / float(np.linalg.norm(dense_of(sm))))      # evolve() renormalises the tensors: start from unit norm (no gauge change)
+    out.append(("added-raw", sm))
     plain, expanded = mpdm_states(model, base, mpo, qn)
     out.append(("mpdm", plain))
     if expanded is not None:
